@@ -132,33 +132,31 @@ def presence_sets(ctx, prog, rule):
     if agg is None:
         ctx.ob(rule, "presence/new", False, "PointCloudWriter::new builds no PointCloudWriter")
         return
-    # closures: names compared
-    cl_names = {}
-    for cl in prog.closures_of(f):
-        cl_names[cl.path] = sorted(_eq_consts(cl))
+    import names as nm
     want = {"cartesian_bounds": ["CartesianX"], "spherical_bounds": ["SphericalAzimuth"], "index_bounds": ["ColumnIndex", "ReturnIndex", "RowIndex"]}
     for fld, names in want.items():
         t = strip(R.operand(agg[fld]))
         alts = t[1] if t[0] == "phi" else (t,)
         kinds = sorted(a[1][2] for a in alts if a[0] == "agg" and a[1][0] == "adt")
-        # the condition: a bool local defined by `any(closure)`
+        # the Some(default) of this field is built only on the true side of a test whose value is a prototype lookup
         used = []
+        tyname = fld.split("_")[0].capitalize()
+        somes = [b for n, ds in f.defs().items() for kind, payload, b, si, place in ds
+                 if kind == "stmt" and not place["proj"] and is_variant_agg(payload, "option::Option", "Some") and b in f.cfg()
+                 and any(x[0] == "call" and ("bounds::%sBounds" % tyname) in x[1] and x[1].endswith("::default") for x in leaves(R.rvalue(payload)))]
         for bi in f.cfg():
             tt = f.blocks[bi]["term"]
             if tt["k"] != "switch":
                 continue
             dl = op_place(tt["discr"])
-            d = strip(R.place(dl)) if dl else None
-            if d and d[0] == "call" and d[1].endswith("::any"):
-                cls = [x for x in leaves(d) if x[0] == "agg" and x[1][0] == "closure"]
-                if not cls:
-                    continue
-                e = switch_edges(f, bi)
-                # does the Some(default) assignment of this field lie on the true side only?
-                somes = [b for n, ds in f.defs().items() for kind, payload, b, si, place in ds
-                         if kind == "stmt" and not place["proj"] and is_variant_agg(payload, "option::Option", "Some") and f.local_ty(n).startswith("std::option::Option<bounds::") and fld.split("_")[0].capitalize() in f.local_ty(n)]
-                if somes and all(s in reach(f.cfg(), [e["otherwise"]]) and s not in reach(f.cfg(), [e.get("0")]) for s in somes):
-                    used = cl_names.get(cls[0][1][1], [])
+            d = R.place(dl) if dl else None
+            looked = nm.lookup_names(prog, f, d) if d is not None else None
+            if not looked or not all(isinstance(x, str) for x in looked):
+                continue
+            e = switch_edges(f, bi)
+            true_succ, false_succ = e.get("1", e["otherwise"]), e.get("0")
+            if somes and false_succ is not None and all(s in reach(f.cfg(), [true_succ]) and s not in reach(f.cfg(), [false_succ]) for s in somes):
+                used = sorted(looked)
         ctx.ob(rule, "presence/%s" % fld, kinds == ["None", "Some"] and used == names and set(used) <= set(WANT),
                "%s is Some(default) exactly when the prototype contains one of %s (documented %s); every such name is also updated in add_point" % (fld, used, names))
 
@@ -177,14 +175,12 @@ def _eq_consts(fn):
 def default_limits(ctx, prog, rule):
     f = prog.fn(NEW)
     R = Resolver(f)
-    cl_names = {cl.path: _eq_consts(cl) for cl in prog.closures_of(f)}
+    import names as nm
 
     def record_of(t):
-        """name searched by the `find` closure that produced this data type reference"""
-        for x in leaves(t):
-            if x[0] == "agg" and x[1][0] == "closure":
-                return cl_names.get(x[1][1], ["?"])
-        return None
+        """name of the record whose lookup produced this data type reference"""
+        r = nm.lookup_names(prog, f, t)
+        return r if r else None
     ok = False
     desc = ""
     for bi, t in f.calls(lambda c, t: c == "limits::ColorLimits::from_record_types"):
@@ -193,13 +189,18 @@ def default_limits(ctx, prog, rule):
         desc = str(recs)
         ok = recs == [["ColorRed"], ["ColorGreen"], ["ColorBlue"]] and all(x[0] == "field" and x[2] == "data_type" for x in flds)
     ctx.ob(rule, "default-limits/color-arguments", ok, "ColorLimits::from_record_types receives the data types of the records %s (must be ColorRed, ColorGreen, ColorBlue in this order)" % desc)
-    oki = False
-    for cl in prog.closures_of(f):
-        for bi, t in cl.calls(lambda c, t: c == "limits::IntensityLimits::from_record_type"):
-            a = strip(Resolver(cl).operand(t["args"][0]))
+    # IntensityLimits::from_record_type(&rec.data_type) with rec = the Intensity record (inside a map closure or, after
+    # combinator expansion, in the function itself)
+    oki = okn = False
+    for g in [f] + list(prog.closures_of(f)):
+        Rg_ = Resolver(g)
+        for bi, t in g.calls(lambda c, t: c == "limits::IntensityLimits::from_record_type"):
+            a = strip(Rg_.operand(t["args"][0]))
             oki = a[0] == "field" and a[2] == "data_type"
-    # which closure feeds the map: the find closure with Intensity
-    okn = ["Intensity"] in cl_names.values()
+            if g is f:
+                okn = nm.lookup_names(prog, f, a) == ["Intensity"]
+    if not okn:
+        okn = any(nm.lookup_names(prog, f, R.operand(t["args"][0])) == ["Intensity"] for bi, t in f.calls(lambda c, t: c.endswith("Option::<T>::map")))
     ctx.ob(rule, "default-limits/intensity-argument", oki and okn, "IntensityLimits::from_record_type receives the data type of the Intensity record")
     # from_record_types: (x_min, x_max) <- x.limits()
     g = prog.fn("limits::ColorLimits::from_record_types")
@@ -241,7 +242,9 @@ def default_limits(ctx, prog, rule):
         if var in ("ScaledInteger", "Integer"):
             okl = okl and d == ["Option::Some{RecordValue::%s{arg1.%s.min}}" % (var, var), "Option::Some{RecordValue::%s{arg1.%s.max}}" % (var, var)]
         else:
-            okl = okl and ("fn:RecordValue::%s" % var) in d[0] and ("arg1.%s.max" % var) in d[1] and ("fn:RecordValue::%s" % var) in d[1]
+            old_form = ("fn:RecordValue::%s" % var) in d[0] and ("arg1.%s.max" % var) in d[1] and ("fn:RecordValue::%s" % var) in d[1]
+            new_form = ("RecordValue::%s(arg1.%s.min)" % (var, var)) in d[0].replace("{", "(").replace("}", ")") and ("RecordValue::%s(arg1.%s.max)" % (var, var)) in d[1].replace("{", "(").replace("}", ")")
+            okl = okl and (old_form or new_form)
     ctx.ob(rule, "default-limits/limits-table", okl, "RecordDataType::limits: %s" % table)
     # setters overwrite the field finalize publishes
     for setter, fld in (("set_intensity_limits", "intensity_limits"), ("set_color_limits", "color_limits")):
